@@ -243,6 +243,11 @@ impl Driver {
         ev["open"] = open_json(&res);
         if let OpenResult::Ok = res {
             ev["view"] = core.view();
+            // C06 at every recovered state: what a JavaScript-layout reader makes of the files the
+            // crate has just opened (header in either slot, stale or torn entries behind the cursor)
+            if let Some(js) = crate::checks::js_records(&core) {
+                ev["js"] = js;
+            }
         }
         self.rec.end();
         self.rec.emit(json!({"e":"push"}));
